@@ -1,10 +1,11 @@
 ------------------------- MODULE AggregationsConsts -------------------------
-(* Model universe of C04.  Measure values are scaled by 4 (quarters). *)
+(* Model universe of C04.  Measure values are scaled by 1000 (thousandths), so that decimal
+   strings such as "1.14" or "2.675" - which are not binary fractions - are exact in the model. *)
 EXTENDS Integers, Sequences
 
-XI(v)  == [k |-> "int", n |-> 4 * v, c |-> ""]
-XF(q)  == [k |-> "flt", n |-> q, c |-> ""]            \* q quarters: XF(6) = 1.5
-XNS(q, sp) == [k |-> "numstr", n |-> q, c |-> sp]     \* a string that spells the number q/4
+XI(v)  == [k |-> "int", n |-> 1000 * v, c |-> ""]
+XF(q)  == [k |-> "flt", n |-> q, c |-> ""]            \* q thousandths: XF(1500) = 1.5
+XNS(q, sp) == [k |-> "numstr", n |-> q, c |-> sp]     \* a string that spells the number q/1000
 XT(s)  == [k |-> "text", n |-> 0, c |-> s]
 XAbs   == [k |-> "absent", n |-> 0, c |-> ""]
 
@@ -15,8 +16,8 @@ GEmpty == [k |-> "empty", c |-> ""]
 GAbs   == [k |-> "absent", c |-> ""]
 
 (* negative / zero / positive / duplicate-prone ints, floats, a numeric string, text, absent *)
-XDom == {XI(3), XI(-2), XI(0), XF(6), XF(-3), XNS(8, "2"), XT("zz"), XAbs}
-XDomSmall == {XI(3), XI(-2), XF(6), XNS(8, "2"), XAbs}
+XDom == {XI(3), XI(-2), XI(0), XF(1500), XF(-750), XNS(2000, "2"), XT("zz"), XAbs}
+XDomSmall == {XI(3), XI(-2), XF(1500), XNS(2000, "2"), XAbs}
 GDom == {GS("k1"), GS("k2"), GNum, GBool, GEmpty, GAbs}
 TsDom == {0, 999, 1000, 1001, 1999, 2000, 3500}
 
@@ -29,6 +30,13 @@ DatasetsGroup(n) == {[j \in 1..n |-> Ev(j, 1000 * j, p[j][1], p[j][2])] : p \in 
 (* bucket domain: timestamps on and around span boundaries *)
 DatasetsBucket(n) == {[j \in 1..n |-> Ev(j, ts[j], XI(1), GS("k1"))] : ts \in SeqsOf(n, TsDom)}
 
+(* string-typed measure column (C04, numeric-string clause): decimal strings whose nearest double is not what a
+   sloppy integer-part + fraction/10^k evaluation yields ("1.14", "1.36", "0.1", "2.675"), an integer string, and
+   text that only LOOKS like a number ("-" and "e5" stand for the families  - + . -.  and  e5 1e 0x10 ; the
+   harness substitutes other members and other spellings of the same number).  Every value is a string or absent. *)
+XDomNumStr == {XNS(1140, "1.14"), XNS(1360, "1.36"), XNS(100, "0.1"), XNS(2675, "2.675"), XNS(2000, "2"), XT("-"), XT("e5"), XAbs}
+DatasetsNumStr3 == DatasetsAgg(3, XDomNumStr)
+DatasetsNumStr4s == DatasetsAgg(4, XDomNumStr \ {XNS(100, "0.1"), XNS(2000, "2")})
 DatasetsAgg3 == DatasetsAgg(3, XDom)
 DatasetsAgg4 == DatasetsAgg(4, XDom)
 DatasetsAgg5s == DatasetsAgg(5, XDomSmall)
